@@ -36,6 +36,11 @@ def jobs(tier):
                functions=[fn_id(NS.NaiveBayesScorer.score), fn_id(NS.NaiveBayesScorer.score_final)],
                stubs=["math.log inside nb_scorer replaced by a stub that records its argument and returns a symbolic finite value", "model replaced by a stub returning symbolic log-probabilities"],
                site="NaiveBayesScorer")]
+    out.append(Job("C14.API-STREAM", HP, "ob_api_stream", timeout=1800, path_timeout=120,
+                   bounds="8 texts x 2 reference times x latent on/off x {no earlier call, earlier stream with latent on, with latent off}: shipped model, no timeout: ctparse() returns one of the streamed candidates "
+                          "with the maximal score (same production, subject, labels), empty resolution iff empty stream, scores finite, re-streaming only with a strictly higher score (latent off)",
+                   functions=[fn_id(C.ctparse), fn_id(C.ctparse_gen), fn_id(C._ctparse)], stubs=["parser untraced; pool indices symbolic"], site="ctparse"))
+    out.append(Job("C14.LSE-RANGE", HP, "ob_lse_range", timeout=300, bounds="_log_sum_exp finite on very negative pairs", functions=["ctparse.nb_estimator._log_sum_exp"], site="_log_sum_exp"))
     out.append(Job("C14.SCORE-HIST", HP, "ob_score_hist", timeout=600, bounds="three consecutive scorings on one scorer object with permuted traces",
                    functions=[fn_id(NS.NaiveBayesScorer.score), fn_id(NS.NaiveBayesScorer.score_final)], stubs=["math.log stub", "order-sensitive model stub"], site="NaiveBayesScorer"))
     out += [j for j in search_jobs("C14", tier) if "STREAM" in j.name]
